@@ -38,7 +38,7 @@ CLAIMED["C01"] = dict(
          "read_file (plus the documented OSError from stat/open), nothing leaves the archive-member wrapper; the CLI returns 0 with "
          "output or 1 with clean stdout and exactly one stderr line. A `decreases` obligation is generated for every own `while` loop "
          "(26 of 29 discharged by variant rules over the real AST; the other three are listed as not decided).",
-    note="Assumed: third-party parsers terminate; BaseException-only classes and MemoryError/RecursionError not modelled; argparse raises only "
+    note="Assumed: third-party parsers terminate (known to be false for olefile's property parser on a damaged SummaryInformation stream: recorded finding with its own bounded scope obligation); BaseException-only classes and MemoryError/RecursionError not modelled; argparse raises only "
          "SystemExit; sys.stdout.write is atomic w.r.t. encoding errors; merge mode widens values (over-approximation, sound for this safety property).",
     technique="contract-based deductive verification: exceptional postconditions by symbolic execution of the real AST under EXC-ANY, z3",
     design="DESIGN.md §3 C01")
